@@ -263,7 +263,10 @@ func c04history(c *engine.Ctx, hist []int, record bool) string {
 		}
 	}
 	d := tr.Env.VerifDepths()
-	key := depthsStr(d) + "|" + c04globals(tr.Env, initial)
+	// (whether the main program is empty — a fresh interpreter, or one cleared after a failure — is part of the state:
+	// loading code behaves differently at program counter 0)
+	plain := depthsStr(d) + "|" + c04globals(tr.Env, initial)
+	key := fmt.Sprintf("fresh=%v ", d.PC == 0 && d.MainLen == 0) + plain
 	if record && allOK && len(texts) >= 2 && !hostOps {
 		// together vs one at a time
 		tw := zy.NewTraced(true)
@@ -277,8 +280,8 @@ func c04history(c *engine.Ctx, hist []int, record bool) string {
 		scrub := func(x string) string { return c04ptr.ReplaceAllString(x, "0xPTR") }
 		if texts[len(texts)-1] == "" {
 			// an empty last form contributes nothing to the joined text
-		} else if scrub(r.Short()) != scrub(last.Short()) || (r.OK() && dk != key) {
-			c.Violation("together-vs-apart", "C04/together-vs-apart/"+lastName, w, fmt.Sprintf("forms %q evaluated in one call give %s (state %s); one at a time %s (state %s)", texts, r, clipS(dk, 300), last, clipS(key, 300)))
+		} else if scrub(r.Short()) != scrub(last.Short()) || (r.OK() && dk != plain) {
+			c.Violation("together-vs-apart", "C04/together-vs-apart/"+lastName, w, fmt.Sprintf("forms %q evaluated in one call give %s (state %s); one at a time %s (state %s)", texts, r, clipS(dk, 300), last, clipS(plain, 300)))
 		}
 	}
 	if record {
